@@ -11,6 +11,14 @@ def main():
     ap.add_argument('--replay', default=None)
     a = ap.parse_args()
     seed = int(os.environ.get('VERIF_SEED', '20260926'))
+    try:
+        # a runaway allocation (possible only on a tree that changed) must surface as MemoryError inside the check,
+        # where it is reported, not as a kernel kill of the whole run
+        import resource
+        lim = int(os.environ.get('VERIF_MEM_GB', '24')) << 30
+        resource.setrlimit(resource.RLIMIT_AS, (lim, lim))
+    except Exception:
+        pass
     import spectrum
     snap = os.environ.get('VERIF_SNAPSHOT', '')
     if not snap or not os.path.abspath(spectrum.__file__).startswith(os.path.abspath(snap)):
